@@ -231,7 +231,9 @@ struct Run : ContBase {
         draw_poison();
         kind = (int)s.pick({6, 2, 2, 2});
         vf_ledger_on = 1;
-        if (kind == 0) l = qlist(0); else if (kind == 1) q = qqueue(0); else if (kind == 2) st = qstack(0); else g = qgrow(0);
+        int lopt = s.chance(1, 4) ? QLIST_THREADSAFE : 0;      // a thread-safe container used by one thread behaves like a plain one
+        if (lopt) c.tag("threadsafe_option_single_thread");
+        if (kind == 0) l = qlist(lopt); else if (kind == 1) q = qqueue(lopt); else if (kind == 2) st = qstack(lopt); else g = qgrow(lopt);
         if (!l && !q && !st && !g) c.fail(FUNC, "list:ctor", "constructor returned NULL");
         c.op("%s()", kind == 0 ? "qlist" : kind == 1 ? "qqueue" : kind == 2 ? "qstack" : "qgrow");
         int maxops = c.tier ? 2000 : 400, ops = 0;
